@@ -17,6 +17,10 @@ def _singleton(ctx: Ctx, fi: FunctionInfo, e: ast.expr) -> Optional[str]:
         return "constant singleton"
     if isinstance(e, ast.Call) and isinstance(e.func, ast.Name) and e.func.id == "type" and len(e.args) == 1:
         return "type(...)"
+    if isinstance(e, ast.Name) and fi.cls is not None and fi.param_names() and e.id == fi.param_names()[0] and "staticmethod" not in fi.decorators():
+        return "the instance itself (an object of the class, not a value)"
+    if isinstance(e, ast.Name) and e.id == "__EXHAUSTED__":
+        return "sentinel"
     if isinstance(e, (ast.Name, ast.Attribute)):
         if isinstance(e, ast.Attribute) and e.attr == "__class__":
             return "class"
